@@ -257,6 +257,10 @@ def build_base(spec):
 def build_conditions(w, cond_specs, prefix):
     """live condition objects for the given specs, sharing the models / Parameters of the world `w`"""
     import torchphysics as tp
+    if w.spec.get("dup_names"):
+        # several conditions share one name (e.g. all left at their default name): only the log keys coincide
+        return [_condition(tp, w, c, "%s_%s" % (prefix, "cond" if w.spec["dup_names"] == "all" else c["kind"]))
+                for i, c in enumerate(cond_specs)]
     return [_condition(tp, w, c, "%s%d_%s" % (prefix, i, c["kind"])) for i, c in enumerate(cond_specs)]
 
 
